@@ -18,11 +18,19 @@ from gen import programs as G
 from symx.core import Ctx, Stats, explore, Inconclusive, Unsupported, PathLimit
 from symx import rex
 from symx.text import SymStr, SymChar
-from . import lib, runner, callsym, seqsem
+from . import lib, runner, callsym, seqsem, families
 
 _REX = rex.module()
 
 ITEMS = ["o1", "o2", "o3"]
+
+
+def _objects(task):
+    """the object table of a task: the universe's, or the same with other names (one a proper prefix of another, one with a
+    hyphen and an underscore) when the task says so"""
+    if task.get("other_names"):
+        return {families.OTHER_NAMES.get(o, o): t for o, t in G.OBJECTS.items()}
+    return G.OBJECTS
 
 
 def _budget():
@@ -109,11 +117,12 @@ def run_plan(task):
     try:
         lib.install_math_shim()
         text = seqsem.ma_domain_text(actions=seqsem.MA_ACTIONS + seqsem.NULLARY_ACTIONS + seqsem.MOVE_ACTIONS)
-        comp = seqsem.Composer(text, G.OBJECTS)
+        OBJ = _objects(task)
+        comp = seqsem.Composer(text, OBJ)
         plan = [(n, list(a)) for n, a in task["plan"]]
         allow = task["allow"]
         atoms, fluents = comp.touched(plan)
-        universe_atoms = lib.universe_atoms(comp.rd.predicates, G.OBJECTS, {}, comp.rd.is_subtype)
+        universe_atoms = lib.universe_atoms(comp.rd.predicates, OBJ, {}, comp.rd.is_subtype)
         frame = [a for a in universe_atoms if a not in atoms][:1]
         sym_atoms = atoms + frame
         if len(sym_atoms) > task.get("cap", 9):
@@ -132,7 +141,7 @@ def run_plan(task):
         def fn(ctx: Ctx):
             if not ctx.assume(assumption):
                 return None
-            world = lib.World(text, G.OBJECTS)
+            world = lib.World(text, OBJ)
             state, keys = seqsem.symbolic_state(world, comp, sym_atoms, fl_all, is_init=True)
             world.problem.initial_state_predicates = state.state_predicates
             world.problem.initial_state_fluents = state.state_fluents
@@ -225,7 +234,7 @@ def replay_plan(task, atoms, fls):
     from fractions import Fraction
     from pddl_plus_parser.exporters import TrajectoryExporter
     text = seqsem.ma_domain_text(actions=seqsem.MA_ACTIONS + seqsem.NULLARY_ACTIONS + seqsem.MOVE_ACTIONS)
-    comp = seqsem.Composer(text, G.OBJECTS)
+    comp = seqsem.Composer(text, _objects(task))
     plan = [(n, list(a)) for n, a in task["plan"]]
     allow = task["allow"]
     sa, sf = comp.identity()
@@ -233,7 +242,7 @@ def replay_plan(task, atoms, fls):
     for n, a in plan:
         _, _, _, sa, sf = comp.step(sa, sf, n, a, guard=None if allow else (lambda p: p))
         states.append((dict(sa), dict(sf)))
-    world = lib.World(text, G.OBJECTS)
+    world = lib.World(text, _objects(task))
     state, keys = world.make_state(dict(atoms), dict(fls), is_init=True)
     world.problem.initial_state_predicates = state.state_predicates
     world.problem.initial_state_fluents = state.state_fluents
@@ -370,6 +379,16 @@ def tasks_for(tier, seed):
             pf = None if (pi + allow) % 3 else ("newline" if (pi // 3) % 2 else "no_newline")
             tasks.append({"kind": "plan", "plan": p, "allow": allow, "cap": 9 if tier == "quick" else 12, "plan_file": pf,
                           "max_paths": 3000 if tier == "quick" else 30000})
+            if pi % 4 == 1 and p:
+                # the same plan over objects with other names (o1 / o10 / o1-b_2): facts are compared and printed through their text
+                ren = [(n, [families.OTHER_NAMES.get(x, x) for x in a]) for n, a in p]
+                tasks.append(dict(tasks[-1], plan=ren, other_names=True))
+    # plans in which a fact about o10 (o1-b_2) holds while a literal about o1 is evaluated
+    for p in ([("take", ["o1", "o10"]), ("take", ["o1", "o1"])], [("drop", ["o1", "o1-b_2"]), ("take", ["o1", "o1"]), ("drop", ["o1", "o1"])],
+              [("take", ["o10", "o10"]), ("take", ["o10", "o1"]), ("shift", ["o10", "o1", "o1-b_2"])]):
+        for allow in (False, True):
+            tasks.append({"kind": "plan", "plan": p, "allow": allow, "cap": 9 if tier == "quick" else 12, "plan_file": None,
+                          "max_paths": 3000 if tier == "quick" else 30000, "other_names": True})
     for lens in ([1], [2], [1, 1], [2, 1], [1, 1, 1], [2, 2, 1]):
         for ws in (" ", "\t", "  "):
             tasks.append({"kind": "line", "lens": lens, "ws": ws})
